@@ -167,7 +167,7 @@ def run(ctx, chk):
     chk.floor("C06.channel", "failure paths of cbor_serialize_alloc", nfail, 3)
     cf_off = prog.field_offset("_cbor_decoder_context", "creation_failed")
     load = prog.fn("cbor_load")
-    g = prog.global_for(load, "cbor_load.callbacks")
+    g = __import__("tables").load_callbacks_global(prog)
     builders = sorted({el.name for el in g["init_val"].elems if hasattr(el, "name")})
     nb = 0
     for bn in builders + ["_cbor_builder_append"]:
